@@ -45,9 +45,6 @@ where
     let mut guess = initial;
 
     let mut norm = guess.abs();
-    if norm <= tol {
-        return Ok(guess);
-    }
 
     while n < n_max {
         let (f_val, f_deriv_val) = poly.evaluate_derivative(guess);
